@@ -4,8 +4,10 @@ Same specification and driver as C05 (spec/Redirect.tla, vh/redirdrv.py); the cl
 SensitiveStripped (absent from the cross-origin request and every later one), OthersPreserved and
 SingleHostRefuses, the scenario families vary header spelling, carrier, remove_headers_on_redirect sets,
 origin aliases (letter case, explicit default port), scheme / port / host changes and chain shapes.
-The recorded finding D10 (forwarding ProxyManager, redirect to the proxy's own origin) is matched by input
-class, decided by TLC, through known_findings.d/C06.json.
+Header carriers include mappings that hold nothing but removable headers (emptied by the strip loop) with and
+without pool/manager-level defaults of their own.  D10 (forwarding ProxyManager, redirect to the proxy's own
+origin) is repaired in /repo; the spec keeps it as a named deviation that must trip SensitiveStripped, and the
+trace monitor still tags that input class so that a regression is reported with its class.
 """
 from . import redirdrv
 
